@@ -74,6 +74,7 @@ def execute(record: dict, rng: Optional[random.Random]) -> Outcome:
         pure=lambda c, data, value: str(c[0]).startswith("chunks"),
         stall=dcfg.get("stall", 0.0),
         kernel=kernel,
+        real=dcfg.get("real"),
     )
     v = None
     rr = None
